@@ -2,8 +2,10 @@
 
 One *step query* = the real ptree*.c code (included by the harness so that the private node structs are
 the real ones) executing ONE operation from every valid tree of height <= H built on the complete-tree
-skeleton (see harness/trees_step.h), for one operation key position KPOS chosen here (one query per
-position; shapes, colours / balance factors, comparator magnitude, stop point are solver variables).
+skeleton (see harness/trees_step.h).  The runner (this file) case-splits on where the search for the operation key
+ends (skeleton position PPOS, hit/miss) and, for removals of a stored key, on the neighbourhood that decides which node is
+unlinked (REMCASE); one query per case, everything else (shape, colours / balance factors, lookup keys, stop point) is a
+solver variable.  Fix-up loop bounds are tight per case (depth of the unlinked / inserted node + 1).
 """
 from vf import Q
 
